@@ -593,8 +593,8 @@ func (g *G) govMsg() (sdk.Msg, string) {
 		ds := sortedKeys(pool)
 		if len(ds) > 0 {
 			d := ds[g.R.Intn(len(ds))]
-			amt := new(big.Int).Quo(pool[d], big.NewInt(2))
-			if amt.Sign() == 0 || g.bad() {
+			amt := new(big.Int).Quo(new(big.Int).Add(pool[d], big.NewInt(1)), big.NewInt(2))
+			if g.bad() {
 				amt = new(big.Int).Add(pool[d], big.NewInt(1))
 			}
 			return a.MsgGovSendFromFeePool(g.user(), sdk.NewCoins(sdk.NewCoin(d, sdk.NewIntFromBigInt(amt)))), "gov: send from fee pool"
